@@ -148,7 +148,7 @@ Proof.
 Qed.
 (* scalar Upload   query($a: Upload!, $q: Int)   {"q":1}  -- $q is renamed to a, $a is looked up as q *)
 Lemma refuted_remap_collision_proof :
-  exists S vds vars, accepts go_quirks S no_reparse vds vars = true /\ coercible_all std S vds vars = false.
+  exists S vds vars, accepts old_quirks S no_reparse vds vars = true /\ coercible_all std S vds vars = false.
 Proof.
   exists (mk_schema [mk_scalar n_Upload]),
          [mk_var b_a (TNonNull (TNamed n_Upload)) None; mk_var b_q (TNamed n_Int) None],
@@ -157,6 +157,11 @@ Proof.
 Qed.
 
 (* ---- the repaired causes: the same inputs under the code as it is now ---- *)
+Example fixed_remap_collision :
+  exists p, pipeline go_quirks (mk_schema [mk_scalar n_Upload]) no_reparse
+                     [mk_var b_a (TNonNull (TNamed n_Upload)) None; mk_var b_q (TNamed n_Int) None] (JObj [(b_q, num t_1)])
+            = PDone (JObj [(b_q, num t_1)]) (Some {| e_var := b_a; e_path := p; e_kind := EVarRequired (TNonNull (TNamed n_Upload)) |}).
+Proof. eexists. vm_compute. reflexivity. Qed.
 Example fixed_field_null_default :
   accepts go_quirks (mk_schema [mk_input b_In [mk_field b_r (TNonNull (TNamed n_Int)) (Some (VInt t_3))]]) no_reparse
           [mk_var b_x (TNamed b_In) None] (JObj [(b_x, JObj [(b_r, JNull)])]) = false.
@@ -191,7 +196,7 @@ Theorem accept_iff_coercible_partial_proof : forall S reparse vds ms,
     field_defaults_ok weak_strict S = true -> (* schema validity: input field defaults are valid for their type *)
     json_nodup (JObj ms) = true ->            (* no duplicate keys in the variables JSON *)
     vars_nodup vds = true ->                  (* variable names differ *)
-    no_upload_ref S vds = true ->             (* excludes upload-exempt-from-non-null and remap-name-collision-upload *)
+    no_upload_ref S vds = true ->             (* excludes upload-exempt-from-non-null (and keeps the mapper's renaming a plain permutation) *)
     forallb (var_default_ok S weak) vds = true ->
                                               (* operation validity: a variable's default is a value of its type (full reading: it may need list coercion) *)
     normalise go_quirks S reparse vds ms <> NFuel ->   (* the model's recursion budget for nested defaults suffices *)
